@@ -1108,7 +1108,7 @@ class LocalVar(MemoryDesc):
     def fmt_addr(self, instance):
         if isinstance(instance, SubProgram):
             return (self.fmt,
-                    (instance.ebpf.stack & -8) + self.relative_addr)
+                    (type(instance.ebpf).stack & -8) + self.relative_addr)
         else:
             return self.fmt, self.relative_addr
 
@@ -1415,6 +1415,12 @@ class EBPF(EBPFBase):
         self.owners = {1, 10}
 
         super().__init__(**kwargs)
+
+        # the locals of the subprograms live right below our own,
+        # temporaries must not overwrite them
+        low = min((p.stack for p in self.subprograms), default=0)
+        if low:
+            self.stack = (self.stack & -8) + low
 
         for k, v in self._maps():
             if load_maps is None:
